@@ -311,7 +311,7 @@ func (u *UnitsDefinition) handleParseMultiplier(
 				Message: fmt.Sprintf("Failed to parse number as int: %s", result),
 			}
 		}
-		if multiplier > 0 && i > math.MaxInt64/multiplier {
+		if i < 0 || (multiplier > 0 && i > math.MaxInt64/multiplier) {
 			return intNumber, floatNumber, isFloat, BadArgumentError{
 				Message: fmt.Sprintf("Number is too large: %s", result),
 			}
